@@ -118,6 +118,30 @@ def gen_harness(spec, mod):
     return "\n".join(L)
 
 
+def std_assumption_harnesses():
+    """the one std contract the range-mode `len()` relies on (DESIGN §4 C06 (c)): for a RangeInclusive of
+    every integer type, mapped, after up to two leading next/next_back calls, `size_hint()` is exactly
+    the number of remaining items — checked on the real core types for all start <= end with at most
+    65534 items"""
+    L = ["#[cfg(kani)]", "mod std_assume {"]
+    for r in REPRS:
+        L.append("    #[kani::proof]")
+        L.append("    fn size_hint_%s() {" % r)
+        L.append("        let a: %s = kani::any(); let b: %s = kani::any();" % (r, r))
+        L.append("        kani::assume(a <= b && (b as i128).wrapping_sub(a as i128) <= 65533 && (b as i128).wrapping_sub(a as i128) >= 0);")
+        L.append("        let f: fn(%s) -> %s = |x| x;" % (r, r))
+        L.append("        let mut it = (a..=b).map(f);")
+        L.append("        let mut rem: u64 = ((b as i128).wrapping_sub(a as i128) + 1) as u64;")
+        L.append("        if kani::any() { if it.next().is_some() { rem -= 1; } }")
+        L.append("        if kani::any() { if it.next_back().is_some() { rem -= 1; } }")
+        L.append("        let sh = it.size_hint();")
+        L.append("        assert!(sh.0 as u64 == rem);")
+        L.append("        assert!(sh.1 == Some(rem as usize));")
+        L.append("    }")
+    L.append("}")
+    return "\n".join(L)
+
+
 def run_layer_k(scratch, tier="quick", jobs=8):
     specs = k_specs(tier)
     target = os.path.join(scratch, "target")
@@ -129,6 +153,7 @@ def run_layer_k(scratch, tier="quick", jobs=8):
     for s in live:
         t = s.render().rstrip()[:-1]
         parts.append(t + gen_harness(s, mods[s.mod]) + "\n}\n")
+    parts.append(std_assumption_harnesses())
     parts.append("fn main() {}\n")
     expand.write_crate(d, "kcrate", "\n".join(parts))
     os.makedirs(os.path.join(d, ".cargo"), exist_ok=True)
